@@ -164,7 +164,7 @@ func genIniLines(t *rapid.T, d *Decl, max int, forms bool) []IniLine {
 	return out
 }
 
-var noiseKinds = []string{"blank", "semicolon comment", "hash comment", "long comment", "indent", "trailing blanks", "spaces around =", "no spaces around =", "crlf", "header padding", "tab indent"}
+var noiseKinds = []string{"indent of >= 4095 blanks", "blank", "semicolon comment", "hash comment", "long comment", "indent", "trailing blanks", "spaces around =", "no spaces around =", "crlf", "header padding", "tab indent"}
 
 // addNoise rewrites physical lines without changing their meaning.
 func addNoise(t *rapid.T, phys []string) ([]string, []string) {
@@ -202,6 +202,11 @@ func addNoise(t *rapid.T, phys []string) ([]string, []string) {
 		} else if rapid.Bool().Draw(t, "padHeader") {
 			l = "[ " + l[1:len(l)-1] + "\t ]"
 			kinds["header padding"] = true
+		}
+		if rapid.IntRange(0, 39).Draw(t, "hugeIndent") == 0 {
+			// indentation longer than the reader's buffer
+			l = strings.Repeat(" ", rapid.SampledFrom([]int{4095, 4096, 4097, 5000, 8192}).Draw(t, "indentLen")) + l
+			kinds["indent of >= 4095 blanks"] = true
 		}
 		switch rapid.IntRange(0, 4).Draw(t, "decor") {
 		case 0:
